@@ -656,6 +656,9 @@ func (x *Exec) enterLoop(li *loopInfo) {
 			li.hasDec = true
 		}
 	}
+	if li.spec == nil || li.spec.Decreases == nil {
+		x.warn("loop %d has no variant (termination not proved)", li.ordinal)
+	}
 	li.head = x.cur.clone()
 	// cover probe: loop body reachable
 	o := x.oblige(id+"/cover", "cover", x.curPC, tFalse, "loop head reachable under invariant", pos)
